@@ -42,7 +42,7 @@ CHECKS = {
         specs='CliS.tla, Cli.tla, Trace_Cli.tla',
         text='Size rule as invariants of the run model (NeverLarger, SizeRule) checked exhaustively; TLC judges real runs of every enumerated '
              'configuration with shrinking/equal/growing/empty targets in all output modes incl. stdin, with and without the override, plus '
-             'byte-level sources whose UTF-8 re-encoding grows.',
+             'byte-level sources whose UTF-8 re-encoding grows, each also behind five kinds of #! line, and #! lines alone.',
         note='Byte lengths measured on the real files/streams; API result from an in-process minify() call; in-process entry point.',
         technique='TLA+ (TLC) model checking of the CLI run model + trace validation of recorded CLI runs',
         design_ref='3.7, 5 (C14)'),
@@ -51,18 +51,20 @@ CHECKS = {
         text='Run model of main() over abstract file trees (reach x class per file, any visiting order, failure at any position) checked '
              'exhaustively for <=3 (quick) / <=4 (thorough) files; every TLC-enumerated 2-file configuration and a seeded sample of 3-file '
              'ones is materialised (nested dirs, symlinked dir, look-alike suffixes) and run through the real entry point with injected '
-             'read/write faults; TLC judges post-state, open events, visiting order and exit status.',
+             'read/write faults; TLC judges post-state, open events, visiting order and the exit status of both ways of starting the tool '
+             '(python -m: return value of main() dropped; console script: sys.exit(main())): a run that reports success has no failing target.',
         note='Faults injected through open() (root ignores permission bits); crash between truncate and write is model-only; in-process runs.',
         technique='TLA+ (TLC) model checking with fault enumeration + trace validation of recorded CLI runs',
         design_ref='3.7, 5 (C15)'),
     'C16': dict(
         specs='EncodingS.tla, Encoding.tla, Trace_Encoding.tla',
-        text='All 672 in-language configurations (text/bytes x BOM x six coding cookies x LF/CRLF/CR x seven first-line shapes x preserve) are '
+        text='All 1 572 in-language configurations (text/bytes x BOM x ten coding cookies incl. spellings the tokenizer normalises x LF/CRLF/CR x eleven first-line shapes x preserve) are '
              'enumerated by TLC; the shebang capture model is checked against the expectation exhaustively; every configuration x body program '
              'is run through the real minify() on 3 (quick) / 9 (thorough) interpreters and the real CLI, and TLC judges strict tree identity, '
-             'first-line rule, bytes/text agreement and CLI bytes.',
+             'first-line rule, bytes/text agreement and CLI bytes. The result is compared as the UTF-8 bytes the interpreter would read; the non-ASCII #! line uses characters '
+             'that distinguish the sibling codecs.',
         note='Codecs, BOM/cookie detection and newline normalisation are CPython\'s; tree identity is computed by the interpreter under test; '
-             'BOM+shebang unconstrained.',
+             'BOM+shebang unconstrained; one known finding (D23: a #! line carrying a coding declaration).',
         technique='TLA+ (TLC) enumeration of the encoding configuration space + trace validation of observed minify()/CLI results',
         design_ref='3.7, 5 (C16)'),
     'C11': dict(
@@ -70,8 +72,8 @@ CHECKS = {
         text='Call histories over caller-owned list objects shared between calls and threads, with calls broken into the steps that read or '
              'extend those lists; TLC checks ArgsUntouched and ResultIsFresh over every plan and interleaving in bounds (1x3, 2x1; thorough 2x2) '
              'and generates (plan, schedule) histories that are replayed in the real code with threads forced through the schedule at stage '
-             'boundaries; every result is compared with a fresh process. Plus single-process histories, 4 (quick) / 32 (thorough) hash seeds and '
-             'free-running threads over pinned real modules, all judged by TLC.',
+             'boundaries; every result is compared with a fresh process. Plus forward and reverse single-process histories (real modules, the shape bank, and a family with one module per builtin exception and per '
+             'Suite.tla statement symbol) against one-call processes on 3.12, 3.11 and 2.7, 4 (quick) / 32 (thorough) hash seeds and free-running threads, all judged by TLC.',
         note='Forced interleavings are at seam (stage-boundary) grain; fresh reference = same tree, one call per process; option sets fixed to '
              'rename_globals=True for histories.',
         technique='TLA+ (TLC) model checking of call histories/interleavings + replay of TLC-generated behaviours into the implementation',
@@ -81,29 +83,34 @@ CHECKS = {
         text='Composition/gating of the stages checked by TLC; ObsStable judged by TLC on runs of runnable programs: the source, the tree after every stage of minify() '
              '(outside seams, compiled as an AST without any printer) and the printed result must give the same output, exception type and public namespace. '
              'Programs: the enumerated scope programs (two statement orders), suite cases and hoist placements of the other specifications concretised runnable, '
-             'and 12 hand-written seed scripts; options: defaults and seeded subsets of the documented-safe options (seeds: 12 / 200 subsets).',
+             'the arithmetic cells of Fold.tla (120 to a module, seeded order) and 12 hand-written seed scripts; options: defaults and seeded subsets of the documented-safe options (seeds: 12 / 200 subsets).',
         note='Observation excludes documented reflective views (renamed names, annotations, line numbers, parameter names of functions). Runs on CPython 3.12; known '
              'findings D18 (PEP 709) and D20 (promoted docstring) are matched by shape.',
         technique='TLA+ (TLC) model of the pipeline + trace validation of per-stage behaviour observations of TLC-enumerated programs',
         design_ref='3.9, 5 (C01)'),
     'C02': dict(
-        specs='PrinterS.tla, Printer.tla, Trace_Printer.tla',
-        text='S = the grammar\'s levels per expression kind and per expression-valued slot (121 slots x 60 kinds), validated cell by cell against '
-             'CPython\'s parser; M = the printer\'s parenthesisation rules transcribed from the code; TLC checks M faithful under S for all 6 922 cells. '
+        specs='PrinterS.tla, Printer.tla, Trace_Printer.tla, TokensS.tla, TokenBank.tla, Tokens.tla, Trace_Tokens.tla',
+        text='S = the grammar\'s levels per expression kind and per expression-valued slot (121 slots x 64 kinds), validated cell by cell against '
+             'CPython\'s parser; M = the printer\'s parenthesisation rules transcribed from the code; TLC checks M faithful under S for all 7 156 cells. '
              'Every cell (parenthesised and, where S allows, bare), depth-2 chains (quick: 12 000 sampled; thorough: all ~220 000), literal boundary '
              'values in operator contexts and whole modules are round-tripped through the real printer on nine interpreters, strict identity '
-             'computed by the interpreter, verdict by TLC; minify() with all transforms off must return a strictly identical tree.',
+             'computed by the interpreter, verdict by TLC; minify() with all transforms off must return a strictly identical tree. '
+             'Spacing: TokensS.tla states when two neighbouring tokens join (validated against the tokenizers / parsers of five interpreters for all 10 404 pairs of a '
+             'token bank), Tokens.tla checks the TokenPrinter\'s blank rule against it, and Trace_Tokens.tla judges every distinct (previous token, separator, token) '
+             'triple the real TokenPrinter emitted while printing the inputs above (outside wrapper).',
         note='Numeric literal text and string quoting are covered by boundary-value observation only (no TLA+ model of float repr). Strict identity '
-             'computed by harness/worker.py in the interpreter under test. Token spacing is judged through round trip only.',
-        technique='TLA+ (TLC) exhaustive check of the parenthesisation table + replay of every enumerated cell/chain into the real printer',
+             'computed by harness/worker.py in the interpreter under test. Token features (first/last character class, prefix-like, ...) are computed by harness/tokentrace.py.',
+        technique='TLA+ (TLC) exhaustive check of the parenthesisation table and the token-spacing rule + replay of every enumerated cell/chain into the real printer + trace validation of recorded token adjacencies',
         design_ref='3.4, 5 (C02)'),
     'C12': dict(
-        specs='Quote.tla, Trace_Eval.tla',
+        specs='Quote.tla, Trace_Eval.tla, FoldGateS.tla, FoldGate.tla, Trace_FoldGate.tla',
         text='Quote.tla: for every string over 11 character classes up to length 4 (quick) / 5 (thorough) x quote styles x contexts, the text that the '
              'transcribed escaping rules hand to eval() lexes, under an independent literal lexer, as closed literals with no residue (TLC, '
              'exhaustive). Trace_Eval.tla (EvalMonitor): audit-event traces of the real minify() on every enumerated string in nine contexts (with '
              'payloads that would import a canary), on folding attacks, the shape bank and the corpus: each exec must directly follow compilation '
-             'of a closed literal expression and be closed bytecode; no import/open/spawn/socket event may mention a canary.',
+             'of a closed literal expression and be closed bytecode; no import/open/spawn/socket event may mention a canary. FoldGate.tla: which expression trees the '
+             'constant folder may evaluate at all (S: closed literal arithmetic; M: the operand gate of visit_BinOp; 107 380 shapes, TLC exhaustive); every shape '
+             '(quick: 20 000) is minified under the monitor and Trace_FoldGate.tla rejects an eval where S allows none.',
         note='Relies on sys.addaudithook completeness (CPython 3.12 only); loads of the minifier\'s own modules are exempt; attribution by canary names.',
         technique='TLA+ (TLC) exhaustive check of the quoting rules against a literal lexer + trace validation of audit-event traces',
         design_ref='3.5, 5 (C12)'),
@@ -112,16 +119,16 @@ CHECKS = {
         text='S = the name-resolution rules of Python rules over abstract scope trees (module/function/class/comprehension/lambda x load/store/global/nonlocal/param/'
              'walrus); M = the mapper, binder, resolver, pin rules and name assigner with any processing order and rename/decline choice. TLC '
              'checks that every renamed program keeps the binding partition, home scopes, class fallbacks and compilability (all option combinations; '
-             'thorough adds two names). Every enumerated program (quick ~15 600, thorough ~300 000) is concretised with unique tags, minified by the real '
-             'code under three option sets, the spelling of every occurrence is read back, TLC re-evaluates the rules of Python on input and output, and '
+             'thorough adds two names). Every enumerated program (quick ~15 600 + 4 500 four-deep chains of scopes, thorough ~300 000 + all 70 112 chains) is concretised with unique tags, minified by the real '
+             'code under three option sets, the spelling of every occurrence is read back (a share also with adversarial names, heavier mention counts and stores spelled as annotated assignment / for / with / tuple / import), TLC re-evaluates the rules of Python on input and output, and '
              'the compiler and a run of both programs are cross-checked.',
-        note='Bounds: module + 2 scopes (3 thorough) and 1-2 names; helper names of generated programs are preserved; dynamic run on CPython 3.12 only.',
+        note='Bounds: module + 2 scopes (3 thorough; chains of 3 with one name) and 1-2 names; known finding D18 (PEP 709) judged under both rule sets; helper names of generated programs are preserved; dynamic run on CPython 3.12 only.',
         technique='TLA+ (TLC) model checking of the renamer against the scoping rules of Python + replay of every enumerated program into the real renamer',
         design_ref='3.1, 3.2, 5 (C03)'),
     'C04': dict(
         specs='PyScope.tla, Rename.tla, Trace_Rename.tla, Trace_Interface.tla',
         text='InterfaceKept checked by TLC on the renamer model for all programs and option combinations in bounds; the real renamer is replayed on every '
-             'enumerated program under all four (rename_locals, rename_globals) pairs (class attributes, keyword-callable parameters, never-bound names, '
+             'enumerated program under all four (rename_locals, rename_globals) pairs, a share with other store spellings incl. annotated assignments with every annotation removal on (class attributes, keyword-callable parameters, never-bound names, '
              'module-level names); real modules are projected to interface categories (attribute, keyword, import, class-body, parameter, dunder, unbound, '
              'module-level names) before/after under renaming+hoisting and judged by TLC as (multi)set equalities.',
         note='Documented freedom excluded: first parameter of undecorated/classmethod methods, *args/**kwargs, positional-only. Static projection runs under '
@@ -131,7 +138,8 @@ CHECKS = {
     'C09': dict(
         specs='Rename.tla, Pipeline.tla, PipelineS.tla, Trace_Rename.tla, Trace_Taint.tla',
         text='Frozen (renamer model) and the gating of name-introducing stages (pipeline model) checked by TLC; the real code is run on every enumerated '
-             'scope program with a trigger and on 7 triggers + 4 look-alikes x 15 syntactic positions x naming-option combinations x preserve lists, star '
+             'scope program with a module-level trigger, on enumerated programs and four-deep scope chains whose own name is spelled eval / exec / locals / globals / vars (tainted iff '
+             'PyScope.tla resolves a read of it to the builtin) with a renamable name in every function, and on 7 triggers + 4 look-alikes x 15 syntactic positions x naming-option combinations x preserve lists, star '
              'imports and the 2.7 exec statement: identifier multiset, stage events and naming flags (outside seams), and a run that enumerates namespaces '
              'and looks names up by string, all judged by TLC.',
         note='Look-alikes are unconstrained; identifier multiset covers names, args, def/class names, global/nonlocal, import and except names.',
@@ -147,21 +155,22 @@ CHECKS = {
         technique='TLA+ (TLC) model checking + trace validation of observed renamings',
         design_ref='3.2, 5 (C10)'),
     'C05': dict(
-        specs='SuiteS.tla, Suite.tla, Trace_Suite.tla',
-        text='S = one rewrite step per documented option with its side condition over a 37-symbol statement alphabet in 16 contexts (Allowed = closure, non-empty '
+        specs='SuiteS.tla, Suite.tla, Trace_Suite.tla, Trace_SuiteCorpus.tla',
+        text='S = one rewrite step per documented option with its side condition over a 41-symbol statement alphabet in 21 contexts (Allowed = closure, non-empty '
              'rule); M = the nine transformers as written, in pipeline order. TLC checks MOut in Allowed, off-means-untouched, non-emptiness and import order '
-             'for all blocks <= 2 (quick) / <= 3 (thorough) x relevant option subsets. Every enumerated case (quick 26 500, thorough 176 700) is concretised, '
+             'for all blocks <= 2 (quick) / <= 3 (thorough) x relevant option subsets. Every enumerated case (quick ~28 000, thorough ~265 000; "uses __doc__" in five spellings) is concretised, '
              'minified by the real code with exactly those options, the output suite is classified back into the alphabet and TLC checks membership in '
-             'Allowed plus equality of runs under optimize 0 and 1.',
-        note='AST-level Allowed relation + execution approximates the "bisimilar code" wording; the classifier is statement-local; one known finding (D20).',
+             'Allowed plus equality of runs under optimize 0 and 1. Real modules: an eraser of the documented rewrites (harness/suitecanon.py), tied to S by checking it '
+             'against Allowed() on every exported case, is applied to input and output of the pinned corpus under 15 option sets; Trace_SuiteCorpus.tla gives the verdicts.',
+        note='AST-level Allowed relation + execution approximates the "bisimilar code" wording; the classifier is statement-local; known findings D20 (promoted docstring) and D27 (removed binding).',
         technique='TLA+ (TLC) model checking of suite rewriting + replay of every enumerated case into the real transformers',
         design_ref='3.3, 5 (C05)'),
     'C06': dict(
         specs='HoistS.tla, Hoist.tla, Trace_Hoist.tla',
-        text='S = evaluation-scope and visibility rules for 18 places of a fixed skeleton (class bodies, defaults, decorators, comprehension, lambda, f-string value and '
+        text='S = evaluation-scope and visibility rules for 21 places of a fixed skeleton (class bodies, defaults, decorators, comprehension, lambda, f-string value and '
              'text, match pattern, __slots__, literal statement, docstring position) plus the exclusions the property lists; M = the hoister\'s use collection and '
              'deepest-common-function-namespace placement. TLC checks M |= S for every set of <= 4 (quick) / 5 (thorough) places x 4 literal kinds. Every case '
-             '(quick 2 712 x 3 option sets) is concretised and minified by the real code; TLC judges which places were replaced, the scope / count / position / '
+             '(x 3 option sets; True also spelled as an expression that folding turns into it) is concretised and minified by the real code; TLC judges which places were replaced, the scope / count / position / '
              'value of every alias assignment, docstring and __future__ positions, compilation and a run of both programs.',
         note='Fixed skeleton (one program shape, all placements); alias assignments recognised structurally; known finding D18 (PEP 709) matched by its version '
              'signature (correct on 3.11, NameError on 3.12).',
@@ -180,9 +189,10 @@ CHECKS = {
     'C17': dict(
         specs='CostS.tla, Cost.tla, Trace_Size.tla',
         text='M = the arithmetic of should_rename (name / builtin / hoisted bindings); S = the true change of printed size including the separator of an inserted '
-             'assignment. TLC shows the model exact at module level / one-line bodies and reproduces the indentation under-estimate (D15) for every decision in '
+             'assignment. TLC shows the model exact at module level / one-line bodies and reproduces the indentation under-estimate (D15) and the uncounted blank next to a keyword (D30) for every decision in '
              'bounds. On pinned real modules TLC judges every logged should_rename decision against the cost comparison, and for each of 11 size options and 2 '
-             'bases that the output with the option on is no longer than with it off.',
+             'bases that the output with the option on is no longer than with it off; the same for synthetic modules (a literal repeated 2..20 times; a literal at 3 / 8 '
+             'sites of each of 27 syntactic kinds at module level / in a function / in a method).',
         note='The property is a corpus observation ("real-world modules" = the pinned corpus); decisions are logged by wrapping should_rename from outside.',
         technique='TLA+ (TLC) check of the cost model + trace validation of logged rename decisions and measured output sizes',
         design_ref='3.2, 5 (C17)'),
@@ -190,7 +200,8 @@ CHECKS = {
         specs='Pipeline.tla, PipelineS.tla, Trace_Pipeline.tla',
         text='TLC exhaustively checks the implementation-shaped pipeline model against the envelope (all 2^14 gating option sets x taint x '
              'parsable); TLC then judges the outcome clause on executions of the real minify() recorded on nine interpreters over a pinned '
-             'corpus, grammar test files, a shape bank and corrupted sources. Exhaustive in the model, sampled on the code.',
+             'corpus, grammar test files, a shape bank, corrupted sources, and programs generated from the other specifications\' input spaces (every string of '
+             'Quote.tla\'s alphabet in nine literal contexts, expression shapes of FoldGate.tla). Exhaustive in the model, sampled on the code.',
         note='Trusts CPython\'s parse/compile as ground truth; projection code in harness/local.py and worker.py; RecursionError/timeouts on '
              'pathological depth are not judged; 3.3-3.5 not installed.',
         technique='TLA+ model checking (TLC) of the pipeline + TLC trace validation of recorded minify() executions',
